@@ -124,6 +124,7 @@ type loopInfo struct {
 
 // Exec verifies one function.
 type Exec struct {
+	keepTypes []string // preserves_types of the callee being havocked for
 	eng      *Engine
 	fn       *ssa.Function
 	fc       *FuncContract
